@@ -226,3 +226,15 @@ Example C02_engine_example_switch :
   (exists e, den 100 p = Ok e [4; 3; 2]%Z) /\
   (exists st T, run 300 (init (print p)) [] = Done st T /\ text_of T = words_text [2; 3; 4]%Z).
 Proof. vm_compute. repeat split; eexists; try eexists; repeat split. Qed.
+
+(* counters are in F2: NStep c = \stepcounter{zc<c>}, NSetC c n = \setcounter{zc<c>}{n}, NAddC c n = \addtocounter{zc<c>}{n} (n any integer),
+   and \value{zc<c>} as an operand of \ifnum, \ifodd, \ifcase; counters are global and start at 0.
+   \setcounter{C}{-2}\stepcounter{C}{\addtocounter{C}{4}}\ifnum\value{C}=3\relax W1 \fi \ifodd\value{C}\relax W2 \fi
+   \ifcase\value{C}\relax W3 \or W4 \or W5 \or W6 \fi   ->   W1 W2 W6 *)
+Example C02_engine_example_counters :
+  let p := ([NSetC 1 (-2); NStep 1; NGroup [NAddC 1 4]; NCond (TNum (OCnt 1) REq (OLit 3)) [NWord 1] None;
+            NCond (TOdd (OCnt 1)) [NWord 2] None; NCase (OCnt 1) [[NWord 3]; [NWord 4]; [NWord 5]; [NWord 6]] None])%Z in
+  in_F2 p = true /\ gdef_safe 100 p = true /\
+  (exists e, den 100 p = Ok e [6; 2; 1]%Z) /\
+  (exists st T, run 400 (init (print p)) [] = Done st T /\ text_of T = words_text [1; 2; 6]%Z).
+Proof. vm_compute. repeat split; eexists; try eexists; repeat split. Qed.
